@@ -77,6 +77,7 @@ def main():
     os.makedirs(os.path.dirname(out), exist_ok=True)
     json.dump(results, open(out, "w"), indent=1)
     sh("/venv/bin/python -m lib.py2coq.main all", cwd=ROOT)
+    sh("git checkout -- evidence/", cwd=ROOT)      # evidence written by runs on changed trees is not evidence
     print("results ->", out)
 
 
